@@ -671,6 +671,20 @@ func c19(c *Ctx) {
 			r.Break("C19.Z3: no nil-error edge of getServerTime found in collectTime's goroutine")
 		}
 	}
+	// Z3m: a peer's status is fetched through getServerTime only, so every answer is a measurement (an entry point that asks
+	// the join target for its peer list directly learns its clock and throws it away)
+	for _, fi := range c.P.FuncsIn("timesafeguard") {
+		if fi.Body() == nil || gst != nil && fi == gst {
+			continue
+		}
+		info := fi.Info()
+		for _, call := range astx.Calls(fi.Body(), true) {
+			if fn := astx.Callee(info, call); fn != nil && fname(fn) == "GetServerStatus" {
+				r.Fail("C19.Z3", fi.Name(), "peers are asked through getServerTime only", c.P.Pos(call.Pos()),
+					"a peer's status is requested outside getServerTime: its answer carries its clock, but no measurement is taken from it — the node being joined is then judged only if a second request to it succeeds, and ignored as 'did not answer' if that fails")
+			}
+		}
+	}
 	// Z6: error discipline of the package
 	{
 		nErr := 0
